@@ -20,7 +20,7 @@ ASSUMPTIONS = [
     "passed to entity/set_of); mirror a comparison; contains(c,i) <-> in_(i,c); permute variable declaration order, selection "
     "order and the elements of a domain",
 ]
-BOUNDS = {"quick": dict(domains="3 / 2x2", base_queries="L<=3 chains and L<=2 trees", rewrites="every single rewrite at every position; "
+BOUNDS = {"quick": dict(domains="3 / 2x2", base_queries="L<=3 chains and L<=2 trees; selections mixing expressions and variables", rewrites="every single rewrite at every position; "
                         "sampled pairs"),
           "thorough": dict(domains="3 / 2x2", rewrites="compositions of <=3 rewrites")}
 LIMITS = {"quick": dict(max_paths=10000, max_wall=90), "thorough": dict(max_paths=100000, max_wall=600)}
@@ -127,8 +127,9 @@ def build(spec, pools):
 
 
 def keyed_rows(rows, spec):
-    names = [o[1] for o in spec["select"]]
-    return sorted({tuple(sorted(zip(names, r))) for r in rows})
+    # keyed by the VARIABLE columns; expression columns (symbolic values) are judged by the reference obligations only
+    sel = spec["select"]
+    return sorted({tuple(sorted((o[1], c) for o, c in zip(sel, r) if o[0] == "v")) for r in rows})
 
 
 class C18(Case):
@@ -212,6 +213,15 @@ def base_queries(tier, rnd):
             out.append(dict(TWO, cond=[op] + list(tri)))
     out.append(dict(TWO, cond=["and", ["or", SX[0], SY[0]], ["or", SX[1], SY[1]]]))
     out.append(dict(TWO, cond=None))
+    # selected EXPRESSIONS derived from a variable, before / after the variable itself, the variable free or bound by conditions
+    XA, XB = ["a", "x", "a"], ["a", "x", "b"]
+    out.append(dict(ONE, select=[XA, ["v", "x"]], cond=None, form="set_of"))
+    out.append(dict(ONE, select=[XA, ["v", "x"]], cond=core[0], form="set_of"))
+    out.append(dict(TWO, select=[XA, ["v", "x"], ["v", "y"]], cond=None))
+    out.append(dict(TWO, select=[XA, ["v", "x"], ["v", "y"]], cond=SY[0]))
+    out.append(dict(TWO, select=[XA, ["v", "y"], ["v", "x"]], cond=J[0]))
+    out.append(dict(TWO, select=[XA, ["a", "y", "a"], ["v", "x"], ["v", "y"]], cond=SY[0]))
+    out.append(dict(TWO, select=[XB, XA, ["v", "x"]], cond=SY[0]))
     # a universally quantified condition (its domain can be permuted, it can stand on either side of and_)
     FA = dict(pools={"X": 3, "U": 3}, classes={"U": "Other"}, vars={"x": "X"}, select=[["v", "x"]])
     for fc in (["cmp", "gt", ["a", "x", "a"], ["a", "u", "a"]], ["cmp", "ne", ["a", "x", "b"], ["a", "u", "b"]]):
